@@ -29,3 +29,4 @@ static void *C(void*a){ sched_thread_begin(3); sched_wait_quiescent(); /* everyo
 int main(int argc,char**argv){ uint64_t s0=argc>1?strtoull(argv[1],0,0):1; int n=argc>2?atoi(argv[2]):1000; extern int sched_quiet; uint64_t hs=0; 
   for(int r=0;r<n;r++){ seed=s0*1000003+r; kind=(seed>>3)&7; memset(&mu,0,sizeof mu); memset(&cv,0,sizeof cv); tickets=0; r1=-1; w2done=0; sdone=0; pthread_t t[4]; sched_init(4,seed); void*(*f[4])(void*)={W1,W2,S,C}; for(int i=0;i<4;i++) pthread_create(&t[i],0,f[i],0); for(int i=0;i<4;i++) pthread_join(t[i],0); uint64_t a,b,h; sched_stats(&a,&b,&h); hs^=h; }
   printf("rounds=%d W1=0,W2 asleep:%ld  W1=TO,W2 woke:%ld  both woke:%ld hashxor=%016lx\n",n,stats[0],stats[1],stats[2],hs); return 0; }
+void sched_deadlock_hook(void){}
